@@ -23,7 +23,7 @@
 (* Key = function#position / kinds of outside effects / Class of the case:   *)
 (* the abstract identity of a violation (computed here).                     *)
 (* Diagnostics (not part of the verdict): with which SandboxJoin model       *)
-(* ("asis", "fixed") the sandboxed core calls agree.                         *)
+(* ("asis", "fixed") the sandboxed core calls of every 4th record agree.     *)
 EXTENDS SandboxPath, Json
 
 VARIABLES i, bad, calbad, cnt, classes
@@ -119,7 +119,8 @@ TNext ==
                 /\ UNCHANGED <<bad, classes>>
         ELSE LET prs  == Pairs(r, fs)
                  viol == {pr \in prs : ~Confined(pr.e)}
-                 cores == IF r.m = "sand" THEN {j \in 1..Len(r.core) : r.core[j].fn \in DOMAIN CoreOp} ELSE {}
+                 \* diagnostics on every 4th sandboxed record only (evaluating both models is the costly part)
+                 cores == IF r.m = "sand" /\ i % 4 = 1 THEN {j \in 1..Len(r.core) : r.core[j].fn \in DOMAIN CoreOp} ELSE {}
                  agree(impl) == Cardinality({j \in cores : EffSet(r.core[j].e) = SandEff(fs, CoreOp[r.core[j].fn], sp, impl)})
              IN /\ bad' = IF viol = {} THEN bad ELSE AddBad(bad, {Key(pr, cls) : pr \in viol}, i)
                 /\ classes' = classes \cup {cls}
